@@ -45,6 +45,100 @@ def self_field(t, self_p, name):
     return r == ('param', self_p) and p == [name]
 
 
+def _lin_eq(a, b):
+    return a[0] == b[0] and a[1] == b[1]
+
+
+def _lin_sub(a, b):
+    r = dict(a[0])
+    for k, v in b[0].items():
+        r[k] = r.get(k, 0) - v
+        if r[k] == 0:
+            del r[k]
+    return r, a[1] - b[1]
+
+
+def _ctr_shape(ebf, ablk, eb):
+    """FRMPayload encryption judged in terms of the payload offset k = (position XORed) - start, whatever the loop
+    variable is: the loop variable X runs over a Range whose first / last+1 positions are start / end, the XOR is
+    payload[P] ^= S[k & 15], the block S = AES(A) is recomputed exactly where k & 15 == 0, and A[15] there is
+    k / 16 + 1 (modulo 256), either in closed form or as a counter starting at 1 and incremented once per block."""
+    start, end = ('param', 2), ('param', 3)
+    xw = [w for w in buffer_script(ebf, lambda t: t == ('param', 1)) if w.kind == 'byte']
+    if len(xw) != 1:
+        return False
+    v = peel(xw[0].value)
+    P = xw[0].start
+    if not (v[0] == 'BitXor' and peel(v[1])[0] == 'index' and peel(peel(v[1])[1]) == ('param', 1) and rules.linear(peel(v[1])[2]) == rules.linear(P) and peel(v[2])[0] == 'index'):
+        return False
+    # loop variable: the Some payload of Iterator::next over Range{start: s0, end: e0}
+    X = rules.find_in_term(P, lambda y: isinstance(y, tuple) and y[:1] == ('field',) and len(y) == 3 and y[2] == '0' and isinstance(y[1], tuple) and y[1][:1] == ('as',) and is_call(y[1][1], 'Iterator::next'))
+    if X is None:
+        return False
+    rng = rules.find_in_term(X, lambda y: isinstance(y, tuple) and y[:1] == ('agg',) and y[1].endswith('ops::range::Range'))
+    if rng is None:
+        return False
+    f = dict(rng[2])
+    lp = rules.linear(P)
+    c_ = _lin_sub(lp, ({X: 1}, 0))                      # P = X + c
+    if X in c_[0]:
+        return False
+
+    def plus_c(t):
+        l = rules.linear(t)
+        r = dict(l[0])
+        for k, v_ in c_[0].items():
+            r[k] = r.get(k, 0) + v_
+            if r[k] == 0:
+                del r[k]
+        return r, l[1] + c_[1]
+    if not (_lin_eq(plus_c(f['start']), ({start: 1}, 0)) and _lin_eq(plus_c(f['end']), ({end: 1}, 0))):
+        return False
+    k_lin = _lin_sub(lp, ({start: 1}, 0))             # payload offset
+
+    def uncast(t):
+        t = peel(t)
+        while isinstance(t, tuple) and t[:1] == ('cast',):
+            t = peel(t[2])
+        return t
+
+    def is_k(t):
+        return _lin_eq(rules.linear(peel(t)), k_lin)
+
+    def low4(t):
+        t = uncast(t)
+        return (t[0] == 'BitAnd' and ((t[2] == ('const', 15) and is_k(t[1])) or (t[1] == ('const', 15) and is_k(t[2])))) or (t[0] == 'Rem' and t[2] == ('const', 16) and is_k(t[1]))
+
+    def blk(t):
+        t = uncast(t)
+        return (t[0] in ('Shr', 'ShrUnchecked') and t[2] == ('const', 4) and is_k(t[1])) or (t[0] == 'Div' and t[2] == ('const', 16) and is_k(t[1]))
+    if not low4(peel(v[2])[2]):
+        return False
+    # the keystream block is recomputed exactly under k & 15 == 0
+    j0 = [x for x in path_conditions(ebf, eb[0][0]) if x[0][0] == 'Eq' and x[0][2] == ('const', 0) and cond_true(x) and low4(x[0][1])]
+    if not j0:
+        return False
+    w15 = [w for w in buffer_script(ebf, lambda t: t == ablk) if w.kind == 'byte' and off(w.start) == 15]
+    if len(w15) != 1 or not any(y[0] == j0[-1][0] and cond_true(y) for y in path_conditions(ebf, w15[0].bb)):
+        return False
+    val = peel(w15[0].value)
+    if val[0] == 'phi':
+        ctr = val[1]
+        dl = rules.defs_with_conditions(ebf, ctr)
+        kinds = sorted('init1' if d == ('const', 1) else 'inc' if (is_call(d, 'wrapping_add') and peel(d[2][0]) == ('phi', ctr) and peel(d[2][1]) == ('const', 1)) else 'other' for d, cs, bb in dl)
+        inc_bb = [bb for d, cs, bb in dl if is_call(d, 'wrapping_add')]
+        return kinds == ['inc', 'init1'] and all(any(y[0] == j0[-1][0] and cond_true(y) for y in path_conditions(ebf, b_)) for b_ in inc_bb)
+    if is_call(val, 'wrapping_add') or val[0] in ('Add', 'AddWithOverflow'):
+        x, y = (val[2][0], val[2][1]) if val[0] == 'call' else (val[1], val[2])
+        if peel(y) != ('const', 1):
+            x, y = y, x
+        return peel(y) == ('const', 1) and blk(x)
+    if val[0] == 'cast':
+        inner = peel(val[2])
+        return inner[0] in ('Add', 'AddWithOverflow') and ((peel(inner[2]) == ('const', 1) and blk(inner[1])) or (peel(inner[1]) == ('const', 1) and blk(inner[2])))
+    return False
+
+
 def run(tier):
     res = Result(PID)
     c = ctx('ws')
@@ -267,27 +361,7 @@ def run(tier):
         a = [peel(term_of_operand(ebf, x)) for x in ghb[0][1].args]
         okx = a[0] == ('param', 1) and a[1] == ('const', 1) and a[2] == ('param', 4)
         ablk = index_call(a[3])[0] if index_call(a[3]) else a[3]
-        # a[15] = ctr on the j == 0 path, ctr: 1, then +1 (wrapping) per block
-        w15 = [w for w in buffer_script(ebf, lambda t: t == ablk) if w.kind == 'byte' and off(w.start) == 15]
-        okx = okx and len(w15) == 1 and peel(w15[0].value)[0] == 'phi'
-        if okx:
-            ctr = peel(w15[0].value)[1]
-            dl = rules.defs_with_conditions(ebf, ctr)
-            kinds = sorted('init1' if v == ('const', 1) else 'inc' if (is_call(v, 'wrapping_add') and peel(v[2][0]) == ('phi', ctr) and peel(v[2][1]) == ('const', 1)) else 'other:' + term_str(v)[:30] for v, cs, bb in dl)
-            okx = kinds == ['inc', 'init1']
-            inc_bb = [bb for v, cs, bb in dl if is_call(v, 'wrapping_add')]
-            # the increment, the store of a[15] and the block encryption are on the same (j == 0) path
-            j0 = [x for x in path_conditions(ebf, eb[0][0]) if x[0][0] == 'Eq' and x[0][2] == ('const', 0) and cond_true(x)]
-            okx = okx and bool(j0) and peel(j0[-1][0][1])[0] == 'BitAnd' and peel(j0[-1][0][1])[2] == ('const', 15) and \
-                all(any(y[0] == j0[-1][0] and cond_true(y) for y in path_conditions(ebf, b_)) for b_ in inc_bb + [w15[0].bb])
-        # the XOR: payload[start + i] ^= s[i & 15]
-        xw = [w for w in buffer_script(ebf, lambda t: t == ('param', 1)) if w.kind == 'byte']
-        okx = okx and len(xw) == 1
-        if okx:
-            v = peel(xw[0].value)
-            lin, k = rules.linear(xw[0].start)
-            okx = v[0] == 'BitXor' and k == 0 and len(lin) == 2 and ('param', 2) in lin and peel(v[1])[0] == 'index' and peel(peel(v[1])[1]) == ('param', 1) and \
-                peel(v[2])[0] == 'index' and peel(peel(v[2])[2])[0] == 'BitAnd' and peel(peel(v[2])[2])[2] == ('const', 15)
+        okx = okx and _ctr_shape(ebf, ablk, eb)
     res.require(okx, 'C01:encrypt_frm_data_payload:ctr', 'payload encryption is not AES-CTR with Ai = helper block(0x01, full counter), Ai[15] = 1, 2, 3, ... per 16 bytes, XOR at start + i with keystream byte i & 15',
                 ebf.body.path, 'SPEC-LAYOUT(Ai) + INDUCTION(block counter) + SHAPE(xor)', instance='FRMPayload: XOR with AES(Ai), Ai tag 0x01, block index from 1, keystream byte i mod 16')
     # ------------------------------------------------------------------ JoinAccept
